@@ -706,6 +706,10 @@ def _value_from_self_curve(facts, body, o):
     return False
 
 
+def _is_curve_new_path(p):
+    return p == 'section::hit_objects::slider::curve::Curve::new'
+
+
 def _callers_closures_return_curve(facts, body, o):
     pl = op_place(o)
     if pl is None:
@@ -735,7 +739,14 @@ def _callers_closures_return_curve(facts, body, o):
             n += 1
             if len(t['args']) < cur:
                 return False
-            al = op_local(t['args'][cur - 1])
+            a_op = t['args'][cur - 1]
+            if a_op.get('k') == 'const' and isinstance(a_op.get('fn'), dict):
+                # a function item handed in instead of a closure (`Self::calculate_curve`)
+                fb = facts.bodies.get(a_op['fn'].get('path')) or facts.bodies.get(facts.ref_path(a_op['fn'].get('path', '')))
+                if fb is None or not (_returns_curve_new(facts, fb, set()) or _is_curve_new_path(a_op['fn'].get('path', ''))):
+                    return False
+                continue
+            al = op_local(a_op)
             if al is None:
                 return False
             cty = b2.locals[al].get('closure')
